@@ -159,6 +159,7 @@ def run(chk, repo, tier):
     run_v7_v9(chk, repo)
     run_v10_v12(chk, repo)
     run_v13(chk, repo)
+    run_v14(chk, repo)
 
 
 def canon_hosts(mc):
@@ -601,3 +602,51 @@ def run_v13(chk, repo):
                           witness="dist[['ETA2', 'ETA1']] on a 3-variable block: var(ETA1) of the result is OMEGA(2,2)")
     if n < 2:
         raise AnalysisError(f'V13: only {n} branches with both names and positions recognised')
+
+
+def run_v14(chk, repo):
+    """V14: being positive semidefinite is invariant under multiplication by a positive number (variances in other units).
+    The eigenvalue test of internals.math.is_positive_semidefinite - shared by RandomVariables.validate_parameters,
+    nearest_positive_semidefinite and Model._canonicalize_parameter_estimates - must therefore compare with exactly zero or
+    with a threshold that scales with the matrix; a non-zero CONSTANT threshold accepts an indefinite matrix on a small scale
+    (or rejects a valid one on a large scale)."""
+    V14 = chk.rule('V14', 'is_positive_semidefinite: the eigenvalue threshold is 0 or scales with the matrix (no absolute '
+                          'tolerance)', floor=1)
+    m = repo.module('pharmpy.internals.math')
+    f = m.functions.get('is_positive_semidefinite')
+    if f is None:
+        raise AnalysisError('V14: is_positive_semidefinite not found')
+    defs = {a_.targets[0].id: a_.value for a_ in ast.walk(f.node)
+            if isinstance(a_, ast.Assign) and len(a_.targets) == 1 and isinstance(a_.targets[0], ast.Name)}
+    for a_ in m.tree.body:
+        if isinstance(a_, ast.Assign) and len(a_.targets) == 1 and isinstance(a_.targets[0], ast.Name):
+            defs.setdefault(a_.targets[0].id, a_.value)
+
+    def const(e, depth=0):
+        if isinstance(e, ast.Constant) and isinstance(e.value, (int, float)) and not isinstance(e.value, bool):
+            return float(e.value)
+        if isinstance(e, ast.UnaryOp) and isinstance(e.op, (ast.USub, ast.UAdd)):
+            v = const(e.operand, depth)
+            return None if v is None else (-v if isinstance(e.op, ast.USub) else v)
+        if isinstance(e, ast.Name) and e.id in defs and depth < 3:
+            return const(defs[e.id], depth + 1)
+        return None
+    cmps = [c for c in ast.walk(f.node) if isinstance(c, ast.Compare) and len(c.ops) == 1
+            and isinstance(c.ops[0], (ast.GtE, ast.Gt, ast.LtE, ast.Lt))]
+    tol_calls = [c for c in ast.walk(f.node) if isinstance(c, ast.Call) and (dotted(c.func) or '').split('.')[-1] in
+                 ('isclose', 'allclose') and any(k.arg == 'atol' and const(k.value) not in (0.0,) for k in c.keywords)]
+    if not cmps and not tol_calls:
+        raise AnalysisError('V14: no eigenvalue comparison found in is_positive_semidefinite')
+    for c in cmps:
+        vals = [const(x) for x in (c.left, c.comparators[0])]
+        thr = next((v for v in vals if v is not None), None)
+        ok = thr is None or thr == 0.0
+        chk.instance(V14, f'is_positive_semidefinite: {unparse(c)[:60]}: threshold {"scales / not constant" if thr is None else thr}: {ok}')
+        if not ok:
+            chk.violation(V14, m.rel, f.qualname, unparse(c)[:80],
+                          f'absolute tolerance {thr}: an indefinite matrix whose entries are of that magnitude is accepted',
+                          line=c.lineno, witness='1e-8 * [[1, 1.5], [1.5, 1]] (implied correlation 1.5) passes validate_parameters '
+                                                 'and is kept by Model.create')
+    for c in tol_calls:
+        chk.violation(V14, m.rel, f.qualname, unparse(c)[:80], 'absolute tolerance (atol) in the eigenvalue test', line=c.lineno,
+                      witness='an indefinite block on a 1e-8 scale is accepted')
